@@ -111,4 +111,42 @@ structure Table.Inv (t : Table) : Prop where
 /-- Every column is complete (state right after `EndRow`, `Clear` or construction). -/
 def Table.Full (t : Table) : Prop := ∀ c ∈ t.cols, c.length = t.rowCount
 
+
+/-! ### language bindings (`IPhreeqc::GetSelectedOutputValue`, `…Value2`, `GetSelectedOutputValueF`,
+`GetSelectedOutputRowCountF`, `padfstring`) -/
+
+/-- `IPhreeqc::GetSelectedOutputValue` for the current user number: no table for that number →
+`VR_INVALIDARG` and an error-typed VAR -/
+def getOpt (t : Option Table) (r c : Int) : Int × Var :=
+  match t with
+  | none => (VR_INVALIDARG, .error VR_INVALIDARG)
+  | some t => t.get r c
+
+/-- the Fortran accessor: columns are 1-based, rows are passed through (row 0 = headings) -/
+def getOptF (t : Option Table) (r c1 : Int) : Int × Var := getOpt t r (c1 - 1)
+
+/-- `GetSelectedOutputRowCountF`: data rows only -/
+def rowCountF (api : Nat) : Nat := if api > 0 then api - 1 else api
+
+/-- VAR_TYPE codes; `Value2`/`ValueF` report a long as a double -/
+def vtypeReported : Var → Int
+  | .empty => 0
+  | .error _ => 1
+  | .long _ => 3
+  | .double _ => 3
+  | .str _ => 4
+
+/-- `*dvalue` as written by `Value2`/`ValueF` (bit pattern), `none` = left untouched -/
+def dvalReported : Var → Option UInt64
+  | .long v => some (Float.ofInt v).toBits
+  | .double b => some b
+  | _ => none
+
+/-- `padfstring(dest, src, &len)`: `cap` bytes = the first `cap` bytes of `src`, blank-padded; reported length = strlen(src) -/
+def padF (cap : Nat) (src : List UInt8) : List UInt8 × Nat :=
+  (src.take cap ++ List.replicate (cap - src.length) 32, src.length)
+
+/-- `strncpy(svalue, src, cap)` as seen through `strnlen(svalue, cap)` -/
+def strncpyView (cap : Nat) (src : List UInt8) : List UInt8 := src.take cap
+
 end PhreeqcVerif.SelOut
